@@ -148,7 +148,7 @@ def RULE(tier):
     return ("for each of %d data-object shapes (flat RawDom/RegDom/TymeDom/frozen IceRegDom, one and two levels of nesting, mixed) "
             "and each of JSON/CBOR/MessagePack: every field value that is a term of <= %d nodes over %d atoms, lists and str-keyed "
             "dicts (second field from a fixed small set); oracle: cls._fromX(obj._asX()) == obj, same class, type-strict deep "
-            "equality of fields. One case = (shape, format, field values)." % (len(SHAPES), n, len(ATOMS)))
+            "equality of fields, and again on the same object after a list/dict field value was changed in place. One case = (shape, format, field values)." % (len(SHAPES), n, len(ATOMS)))
 
 
 def EXHAUSTIVE(tier):
@@ -198,21 +198,37 @@ def strict_eq(a, b):
 
 
 def check(shape, t, s):
+    import copy
+    t = copy.deepcopy(t)
+    v = _roundtrip(shape, build(shape, t, s), "")
+    if not v and isinstance(t, (list, dict)):
+        # same object again after an in-place change of a field value: the second serialization must show it
+        obj = build(shape, t, s)
+        for fmt, ser, de in FORMATS:
+            getattr(obj, ser)()
+        if isinstance(t, list):
+            t.append("more")
+        else:
+            t["more"] = 1
+        v = _roundtrip(shape, obj, ":after-inplace-change")
+    return v
+
+
+def _roundtrip(shape, obj, phase):
     v = []
-    obj = build(shape, t, s)
     for fmt, ser, de in FORMATS:
         try:
             raw = getattr(obj, ser)()
             back = getattr(type(obj), de)(raw)
         except Exception as ex:
-            v.append(("%s:raises:%s:%s" % (fmt, type(ex).__name__, shape), "%s round trip of %r raised %r" % (fmt, obj, ex)))
+            v.append(("%s:raises:%s:%s%s" % (fmt, type(ex).__name__, shape, phase), "%s round trip of %r raised %r" % (fmt, obj, ex)))
             continue
         if type(back) is not type(obj):
-            v.append(("%s:class:%s" % (fmt, shape), "%s round trip of %r gave class %s" % (fmt, obj, type(back).__name__)))
+            v.append(("%s:class:%s%s" % (fmt, shape, phase), "%s round trip of %r gave class %s" % (fmt, obj, type(back).__name__)))
         elif not (back == obj):
-            v.append(("%s:not-equal:%s" % (fmt, shape), "%s round trip of %r gave %r" % (fmt, obj, back)))
+            v.append(("%s:not-equal:%s%s" % (fmt, shape, phase), "%s round trip of %r gave %r" % (fmt, obj, back)))
         elif not strict_eq(back, obj):
-            v.append(("%s:type-drift:%s" % (fmt, shape), "%s round trip of %r gave %r (types differ)" % (fmt, obj, back)))
+            v.append(("%s:type-drift:%s%s" % (fmt, shape, phase), "%s round trip of %r gave %r (types differ)" % (fmt, obj, back)))
     return v
 
 
